@@ -52,6 +52,24 @@ def core(ctx):
     for t0 in ts:
         yield {"c0": _one(t0), "c1": None, "start": None, "end": None, "tables": None}
         yield {"c0": _one(t0), "c1": None, "start": ["b"], "end": ["o"], "tables": None}
+    # many compared endpoints (around multiples of 32), the two circuits differing in exactly one of them
+    for n in (3, 31, 32, 33, 34, 63, 64, 65, 66, 97, 129):
+        yield {"c0": _wide(n, None), "c1": _wide(n, None, "d"), "start": None, "end": None, "tables": None}
+        for flip in range(n):
+            yield {"c0": _wide(n, None), "c1": _wide(n, flip, "d"), "start": None, "end": None, "tables": None}
+
+
+def _wide(n, flip, name="c"):
+    inv = {"and": "nand", "nand": "and", "or": "nor", "nor": "or", "xor": "xnor", "xnor": "xor", "buf": "not", "not": "buf"}
+    nodes = [["a", "input", [], False], ["b", "input", [], False], ["c", "input", [], False]]
+    ts = S.NARY + S.UNARY
+    for i in range(n):
+        t = ts[i % len(ts)]
+        fi = [["a", "b"], ["b", "c"], ["a", "c"], ["a", "b", "c"]][i % 4]
+        if t in S.UNARY:
+            fi = fi[:1]
+        nodes.append([f"o{i}", inv[t] if i == flip else t, fi, True])
+    return {"name": name, "nodes": nodes, "bbtypes": [], "insts": []}
 
 
 def _rewrite(draw, spec):
@@ -96,10 +114,14 @@ def _rewrite(draw, spec):
 
 @st.composite
 def _case(draw, ctx):
-    c0 = draw(S.circuit_spec(min_inputs=1, max_inputs=4, min_gates=1, max_gates=8, max_fanin=4,
-                             io_outputs=True,
-                             # names that look like the ones encoders / the miter derive from node names
-                             pools=(S.BENIGN, S.TOOLLIKE) if draw(st.integers(0, 2)) == 0 else (S.BENIGN,)))
+    if draw(st.integers(0, 5)) == 0:
+        # parity-heavy circuits over few nets: wide xor/xnor gates that share operand pairs
+        c0 = draw(S.circuit_spec(min_inputs=2, max_inputs=4, min_gates=2, max_gates=6, max_fanin=5, io_outputs=True,
+                                 types=["xor", "xnor", "xor", "xnor", "and", "or", "not"], consts=False, min_fanin_nary=2))
+    else:
+        # names that look like the ones encoders / the miter derive from node names
+        c0 = draw(S.circuit_spec(min_inputs=1, max_inputs=4, min_gates=1, max_gates=8, max_fanin=4, io_outputs=True,
+                                 pools=(S.BENIGN, S.TOOLLIKE) if draw(st.integers(0, 2)) == 0 else (S.BENIGN,)))
     mode = draw(st.sampled_from(["copy", "rewrite", "rewrite", "mutate", "mutate", "indep", "self"]))
     if mode == "self":
         c1 = None
